@@ -45,9 +45,10 @@ def gen_histories(ctx, module, cfg, out, workers=8, simulate=None, depth=None, t
 
 
 def run_sim(ctx, exe, histories, out, jobs=8, timeout=1200):
-    rc, o = vlib.sh([exe, "run", histories, out, str(jobs)], timeout=timeout,
-                    env={"ASAN_OPTIONS": "detect_leaks=1:abort_on_error=0:exitcode=23", "UBSAN_OPTIONS": "print_stacktrace=1",
-                         "VERIF_TMP": ctx.out})
+    env = {"ASAN_OPTIONS": "detect_leaks=1:abort_on_error=0:exitcode=23", "UBSAN_OPTIONS": "print_stacktrace=1",
+           "VERIF_TMP": ctx.out}
+    env.update(getattr(ctx, "sim_env", {}))
+    rc, o = vlib.sh([exe, "run", histories, out, str(jobs)], timeout=timeout, env=env)
     if rc != 0:
         raise vlib.MachineryError("cares_sim failed rc=%d\n%s" % (rc, o[-3000:]))
 
